@@ -23,6 +23,7 @@ type zzSignal struct {
 
 type zzFactory struct {
 	onSignal func(target, action string)
+	onProbe  func() // runs at the start of every liveness probe (a network round trip)
 	remotes map[string]*remote.Remote
 	signals []zzSignal
 	creates []string
@@ -74,6 +75,9 @@ func (f *zzFactory) SignalToAdd(target string, action string) error {
 
 func (f *zzFactory) VerifyReplicaAlive(target string) bool {
 	target = zzConcStr(target)
+	if f.onProbe != nil {
+		f.onProbe()
+	}
 	if f.dead[target] {
 		return false
 	}
